@@ -390,6 +390,112 @@ def evaluate(ctx, cases, drv, mdl, rules, tag, rule_cov, stats, max_report=5):
     return reported
 
 
+def sequences_check(ctx, drv, mdl, rules, gen, n_seq, stats):
+    """ONE Validator instance, several validateModel calls: base world, the same Model object rebuilt with ONE fault, the
+    same object repaired, a near copy (same names, other definitions) in a new object, the base again.  Every call is
+    compared with the extracted validate of the world as it is at that moment (the model is a pure function)."""
+    num_of = {v: k for k, v in rules.items()}
+    mm = str(num_of.get("MATH_MATHML"))
+    fault_names = [f for f, _ in g.FAULTS]
+    seqs = []
+    fi = 0
+    tries = 0
+    while len(seqs) < n_seq and tries < 6 * n_seq:
+        tries += 1
+        world = gen.world()
+        f = fault_names[fi % len(fault_names)]
+        fi += 1
+        r = g.inject(world, f, ctx.rng, gen)
+        if r is None:
+            continue
+        fw, info = r
+        nc, changed = g.near_copy(world, ctx.rng)
+        order = ctx.rng.random() < 0.5
+        steps = []      # (world, text of the step)
+        l1, nxt = g.to_script(world, with_next=True)
+        steps.append((world, "@0;" + ";".join(l1), "base"))
+        first, second = (fw, world) if order else (nc, world)
+        l2, nxt = g.to_script(fw if order else world, first_slot=nxt, reuse_model0=0, with_next=True)
+        steps.append(((fw if order else world), "@0;" + ";".join(l2), "fault in place" if order else "rebuilt in place"))
+        l3, nxt = g.to_script(world if order else fw, first_slot=nxt, reuse_model0=0, with_next=True)
+        steps.append(((world if order else fw), "@0;" + ";".join(l3), "repaired in place" if order else "fault in place"))
+        l4, nxt2 = g.to_script(nc, first_slot=nxt, with_next=True)
+        steps.append((nc, "@%d;" % nxt + ";".join(l4), "near copy (same names, %d units redefined) in a new object" % changed))
+        l5, nxt3 = g.to_script(world, first_slot=nxt2, reuse_model0=nxt, with_next=True)
+        steps.append((world, "@%d;" % nxt + ";".join(l5), "the near copy's object rebuilt as the base"))
+        seqs.append({"steps": steps, "info": info})
+    lines = ["|".join(t for (_w, t, _n) in sq["steps"]) for sq in seqs]
+    impl = run_sharded(drv, "seq", lines, ctx.workdir, "seq.impl")
+    toks = [g.to_tokens(w) for sq in seqs for (w, _t, _n) in sq["steps"]]
+    model = run_sharded(mdl, "run", toks, ctx.workdir, "seq.model")
+    k = 0
+    bad = 0
+    nval = 0
+    for i, sq in enumerate(seqs):
+        parts = impl[i].split(" || ")
+        for j, (w, text, name) in enumerate(sq["steps"]):
+            ml = model[k]
+            k += 1
+            nval += 1
+            il = parts[j] if j < len(parts) else "<missing: %s>" % impl[i][:80]
+            pi, pm = parse_impl(il), parse_model(ml)
+            ok = False
+            if pi is not None and pm is not None:
+                ims, dtd, xml, err = pi
+                core = collections.Counter(ims)
+                if dtd:
+                    core[("E", mm)] -= dtd
+                core = collections.Counter({kk: v for kk, v in core.items() if v > 0 and kk[1] != "1"})
+                ok = (core == pm) and err == 0
+            if not ok:
+                bad += 1
+                stats["problems"] += 1
+                if bad <= 3:
+                    ctx.violation("C04 sequence on ONE Validator, call %d (%s) after [%s]: implementation %s vs model %s" %
+                                  (j + 1, name, ", ".join(n for (_w, _t, n) in sq["steps"][:j]), il[:160], ml[:160]),
+                                  "seq_%d.json" % bad,
+                                  {"kind": "seq", "info": sq["info"], "failing_call": j + 1, "steps": [n for (_w, _t, n) in sq["steps"]],
+                                   "script": lines[i], "tokens": [g.to_tokens(w2) for (w2, _t, _n) in sq["steps"]],
+                                   "impl": impl[i], "model": model[k - j - 1:k - j - 1 + len(sq["steps"])], "rules": dict(rules)})
+                break
+        else:
+            continue
+        k += len(sq["steps"]) - j - 1
+    stats["sequence_calls"] += nval
+    ctx.cov["evaluations"] += nval
+    ctx.log("sequences: %d sequences on one Validator each (%d validateModel calls), %d disagreements" % (len(seqs), nval, bad))
+    return len(seqs), bad
+
+
+def numbers_check(ctx, drv, mdl, rules, rule_cov, stats):
+    """every near-miss / boundary number string in every position that takes a number; expected verdict from the
+    automata of C16 (LC.NumDefs.real_dfa / int_dfa), correspondence with the extracted validate"""
+    cands = g.num_candidates()
+    nf = os.path.join(ctx.workdir, "num.hex")
+    with open(nf, "w") as f:
+        f.write("".join((c.encode("utf-8").hex() or "-") + "\n" for c in cands))
+    out = vf.sh([mdl, "numdfa", nf], timeout=600)[1].split("\n")
+    table = {c: (out[i].split()[0] == "1", out[i].split()[1] == "1") for i, c in enumerate(cands)}
+    dfa = lambda t: table[t] if t in table else _py_dfa(t)  # noqa: E731
+    cases = []
+    hist = collections.Counter()
+    for pos in ("initial", "cn", "mantissa", "exponent", "prefix"):
+        for sx in cands:
+            if pos != "initial" and pos != "prefix" and any(ord(ch) < 32 and ch not in "\t\n" for ch in sx):
+                continue
+            okv = g.num_expected(pos, sx, dfa, ("x", "y"))
+            hist["%s/%s" % (pos, "accept" if okv else "reject")] += 1
+            cases.append({"kind": "valid" if okv else "fault", "world": g.number_world(pos, sx),
+                          "info": {"fault": "number/" + pos, "where": "number-" + pos + "/" + repr(sx), "cite": [] if okv else [g.NUM_RULE[pos]]}})
+    n = evaluate(ctx, cases, drv, mdl, rules, "num", rule_cov, stats)
+    ctx.log("numbers: %d strings x 5 positions = %d cases, problems %d, %s" % (len(cands), len(cases), n, dict(hist)))
+    return len(cases), dict(hist)
+
+
+def _py_dfa(t):
+    return (re.fullmatch(r"-?(\d+\.?\d*|\.\d+)([eE][+-]?\d+)?", t) is not None, re.fullmatch(r"[+-]?\d+", t) is not None)
+
+
 def names_check(ctx, drv, mdl, quick):
     """isValidXmlName / isCellmlIdentifier: model vs implementation on byte strings (complete UTF-8 sequences with
     arbitrary continuation bytes, every single byte, every pair of bytes in the thorough tier)"""
@@ -484,6 +590,14 @@ def run(ctx):
     ctx.log("corpus: %d directed cases, %s" % (len(cases), dict(stats)))
     ncorpus = len(cases)
 
+    # ---- numbers: systematic near-miss strings in every number position
+    nnum, numhist = numbers_check(ctx, drv, mdl, rules, rule_cov, stats)
+
+    # ---- sequences on one Validator instance
+    gen0 = g.Gen(ctx.rng)
+    gen0.invalid_uris = g.INVALID_URIS
+    nseq, seqbad = sequences_check(ctx, drv, mdl, rules, gen0, 140 if quick else 1400, stats)
+
     # ---- generated
     n_worlds = 260 if quick else 2600     # thorough: 15 600 cases (31 200 took 24 min on a loaded machine)
     per_world = 5
@@ -526,7 +640,7 @@ def run(ctx):
             if h not in seen:
                 seen.add(h)
                 nontrivial += 1
-    ctx.cov["evaluations"] += len(cases) + ncorpus
+    ctx.cov["evaluations"] += len(cases) + ncorpus + nnum
     ctx.cov["distinct_nontrivial"] = nontrivial
     ctx.cov["rule"] = ("a case is a world (model + the models attached to its import sources) built through the public API and validated by "
                        "Validator::validateModel and by the extracted ValidDefs.validate; non-trivial = a valid world with exactly one injected "
@@ -534,10 +648,11 @@ def run(ctx):
     ctx.cov["rule_coverage"] = {r: {"injected": v["injected"], "detected": v["detected"], "locations": dict(v["locations"])}
                                 for r, v in sorted(rule_cov.items())}
     ctx.cov["input_distribution"] = {"cases": dict(stats), "fault_location_classes": dict(loc_hist), "world_shapes": dict(size_hist),
-                                     "name_strings": nstr, "corpus_cases": ncorpus}
+                                     "name_strings": nstr, "corpus_cases": ncorpus, "number_cases": numhist,
+                                     "sequences_on_one_validator": nseq}
     ctx.cov["samples"] = [cases[0] and g.to_tokens(cases[0]["world"])[:400], json.dumps(cases[1]["info"]) if len(cases) > 1 else "",
                           json.dumps(cases[-1]["info"])]
-    ctx.cov["traces_validated_against_impl"] = len(cases) + ncorpus + nstr
+    ctx.cov["traces_validated_against_impl"] = len(cases) + ncorpus + nstr + nnum + stats["sequence_calls"]
     tbl = ", ".join("%s %d/%d" % (r, v["detected"], v["injected"]) for r, v in sorted(rule_cov.items()))
     ctx.log("rule coverage (detected/injected): " + tbl)
 
@@ -552,6 +667,17 @@ def replay(ctx, path):
         open(cf, "w").write((r["hex"] or "-") + "\n")
         print("impl  (isValidXmlName isCellmlIdentifier):", vf.sh([drv, "names", cf])[1].strip())
         print("model (is_xml_name is_ident)            :", vf.sh([mdl, "xmlname", cf])[1].strip())
+        return
+    if r.get("kind") == "seq":
+        sf = os.path.join(ctx.workdir, "replay.seq")
+        tf = os.path.join(ctx.workdir, "replay.seq.tokens")
+        open(sf, "w").write(r["script"] + "\n")
+        open(tf, "w").write("".join(t + "\n" for t in r["tokens"]))
+        print("case : sequence on ONE Validator;", json.dumps(r.get("info")), "failing call:", r.get("failing_call"))
+        io = vf.sh([drv, "seq", sf])[1].strip().split(" || ")
+        mo = vf.sh([mdl, "run", tf])[1].strip().split("\n")
+        for j, nme in enumerate(r["steps"]):
+            print("call %d (%s)\n   impl : %s\n   model: %s" % (j + 1, nme, io[j] if j < len(io) else "-", mo[j] if j < len(mo) else "-"))
         return
     sf = os.path.join(ctx.workdir, "replay.script")
     tf = os.path.join(ctx.workdir, "replay.tokens")
